@@ -243,13 +243,15 @@ def make_genC(tier):
             sh = ch.pick("pl.max_share_heat", [None, 0.5])
             if sh is not None:
                 a["max_share_heat"] = sh
-        prof = ch.free("profiles", ["shutdown1", "start1", "both1", "shutdown2", "start2", "both_wide"])
+        prof = ch.free("profiles", ["shutdown1", "start1", "both1", "shutdown2", "start2", "both_wide", "start3"])
         if prof in ("start1", "both1"):
             a.update(start_ramp_lower_bounds=[3.0], start_ramp_upper_bounds=[3.0])
         if prof in ("shutdown1", "both1"):
             a.update(shutdown_ramp_lower_bounds=[5.0], shutdown_ramp_upper_bounds=[5.0])
         if prof == "start2":
             a.update(start_ramp_lower_bounds=[1.0, 3.0], start_ramp_upper_bounds=[2.0, 5.0])
+        if prof == "start3":   # a start ramp of three steps, steeper than the plain ramp limit (a unit one step into it is still two steps inside)
+            a.update(start_ramp_lower_bounds=[1.0, 3.0, 6.0], start_ramp_upper_bounds=[1.0, 4.0, 7.0])
         if prof == "shutdown2":
             a.update(shutdown_ramp_lower_bounds=[5.0, 3.0], shutdown_ramp_upper_bounds=[6.0, 4.0])
         if prof == "both_wide":
